@@ -211,16 +211,17 @@ func runCollector(ctx context.Context) error {
 
 	tunnelpb.RegisterTunnelServer(srv, c.tServer)
 
-	// Initialize collectors.
-	c.start(context.Background())
-
 	// Initialize the Collector server.
 	cpb.RegisterCollectorServer(srv, coll.New(c.tm.Reconnect))
 	// Initialize gNMI Proxy Subscribe server.
 	subscribeSrv, _ := subscribe.NewServer(c.cache)
 	gnmipb.RegisterGNMIServer(srv, subscribeSrv)
-	// Forward streaming updates to clients.
+	// Forward streaming updates to clients. This has to be in place before
+	// any target can send updates into the cache.
 	c.cache.SetClient(subscribeSrv.Update)
+
+	// Initialize collectors.
+	c.start(context.Background())
 	// Register listening port and start serving.
 	lis, err := net.Listen("tcp", fmt.Sprintf(":%d", *port))
 	if err != nil {
@@ -264,6 +265,8 @@ func (c *collector) add(ctx context.Context, id string, t *tpb.Target, tt *tunne
 		t.Addresses = []string{id}
 	}
 
+	// The cache only accepts updates and subscriptions for targets it knows.
+	c.cache.Add(id)
 	if err := c.tm.Add(id, t, request); err != nil {
 		return fmt.Errorf("Could not add target %q: %v", id, err)
 	}
